@@ -14,18 +14,19 @@ CT == {"json", "json_charset", "plain", "none"}
 Matches(t) == t \in {"json", "json_charset"}          \* configured prefix: application/json
 Sizes == {"min-1", "min", "min+1", "big"}
 \* around one megabyte and around the 10 MB buffering cap (BigCases only)
-BigSizes == {"mb+1", "cap", "cap+1"}
+BigSizes == {"mb+1", "cap", "cap+1", "cap+100k"}
 AtLeastMin(z) == z # "min-1"
-AtMostCap(z) == z # "cap+1"
+AtMostCap(z) == z \notin {"cap+1", "cap+100k"}
 
 Cases == [ae : AE, ct : CT, size : Sizes, compressible : BOOLEAN, explicit : BOOLEAN, status : {200, 201, 404},
           pre : BOOLEAN,        \* the handler already sends Content-Encoding: gzip
           setcl : BOOLEAN,      \* the handler declares Content-Length
           flush : BOOLEAN,      \* the handler calls Flush between its two writes (a proxy copy loop does)
           interim : BOOLEAN,    \* the handler sends an interim 103 response first
+          writes : {"two"},     \* the body is written in two halves ("32k": in 32 kB pieces, as a proxy copy loop does; BigCases)
           level : {-1, 0, 1, 5, 9}, pos : {"alone", "inner", "outer"}]
 BigCases == [ae : {"gzip", "identity"}, ct : {"json"}, size : BigSizes, compressible : BOOLEAN, explicit : {TRUE}, status : {200},
-             pre : {FALSE}, setcl : BOOLEAN, flush : BOOLEAN, interim : {FALSE}, level : {1}, pos : {"alone"}]
+             pre : {FALSE}, setcl : BOOLEAN, flush : BOOLEAN, interim : {FALSE}, writes : {"two", "32k"}, level : {1}, pos : {"alone"}]
 
 Eligible(c) == ListsGzip(c.ae) /\ Matches(c.ct) /\ AtLeastMin(c.size) /\ AtMostCap(c.size) /\ ~c.pre
 
